@@ -20,7 +20,7 @@ from pathlib import Path
 
 from vf import fakehttp as F
 from vf import xstate
-from vf.core import HarnessError, Tally, private_xdg
+from vf.core import vacuous, HarnessError, Tally, private_xdg
 
 LEVEL = "model_checking"
 SOURCES = ["cli", "user", "fidb", "ofxhome"]
@@ -467,15 +467,15 @@ def run(ctx):
     jobs += [("precgroup", pj[i : i + 40]) for i in range(0, len(pj), 40)]
     tally = ctx.pmap(dispatch, jobs, chunk=1)
     if tally.counts.get("precedence-runs", 0) < 1200 or tally.counts.get("transitions", 0) < 500:
-        raise HarnessError(f"vacuous: {tally.counts}")
+        vacuous(tally, f"vacuous: {tally.counts}")
     if not tally.fails and "prec-ok" not in tally.outcomes:
-        raise HarnessError("vacuous: no precedence run agreed with the model")
+        vacuous(tally, "vacuous: no precedence run agreed with the model")
     cov = {
-        "states": tally.counts["states"],
-        "transitions": tally.counts["transitions"],
-        "traces_validated_against_impl": tally.counts["transitions"],
+        "states": tally.counts.get("states", 0),
+        "transitions": tally.counts.get("transitions", 0),
+        "traces_validated_against_impl": tally.counts.get("transitions", 0),
         "samples": tally.samples[:4] or ["(none)"],
-        "precedence_runs": tally.counts["precedence-runs"],
+        "precedence_runs": tally.counts.get("precedence-runs", 0),
         "rule": "precedence: 23 options (12 string, 4 boolean, 6 account lists, version) x every subset of their sources (CLI, user file, FI db, OFX Home where applicable) with a distinct marker per "
         "source, + every pair of options x every pair of " + ("sources" if ctx.thorough else "different sources") + "; each run writes the two configuration files, re-imports the script module and compares "
         f"merge_config's mapping with the model (highest-ranking source present wins); persistence: BFS to depth 2" + ("" if ctx.quick else " (and to depth 3 over the 12 writing events of the 6 option sets that interact through defaults)") + " over 57 events (2 nicknames x 14 option sets x write/dry-run write, + a plain run), "
